@@ -20,12 +20,11 @@ var (
 )
 
 // sessionIDKey is the local key type used to store and retrieve the session ID in context.
-type sessionIDKey int
-
-const (
-	// sessionIDContextKey is the key used to store the session ID in the context locals.
-	sessionIDContextKey sessionIDKey = iota
-)
+// It carries the store: the id one store generated for a request is not the id of another
+// store that serves the same request.
+type sessionIDKey struct {
+	store *Store
+}
 
 type Store struct {
 	Config
@@ -122,7 +121,7 @@ func (s *Store) getSession(c fiber.Ctx) (*Session, error) {
 	var rawData []byte
 	var err error
 
-	id, ok := c.Locals(sessionIDContextKey).(string)
+	id, ok := c.Locals(sessionIDKey{store: s}).(string)
 	if !ok {
 		id = s.getSessionID(c)
 	}
@@ -145,7 +144,7 @@ func (s *Store) getSession(c fiber.Ctx) (*Session, error) {
 	if id == "" {
 		fresh = true // The session is fresh if a new ID is generated
 		id = s.KeyGenerator()
-		c.Locals(sessionIDContextKey, id)
+		c.Locals(sessionIDKey{store: s}, id)
 	}
 
 	// Create session object
